@@ -254,7 +254,7 @@ func runC07(c *Ctx) {
 		probe := r.Intn(10)
 		useLabels := probe < 6 && r.Chance(1, 2)
 		eg.atoms = append(eg.atoms, pureAtoms...)
-		if probe != 7 { // FOR counts cannot see predefined constants
+		{ // every position sees the predefined constants, FOR counts included
 			for _, cn := range []string{"CORESIZE", "MAXLENGTH", "MAXPROCESSES", "MINDISTANCE"} {
 				if r.Chance(1, 3) {
 					eg.atoms = append(eg.atoms, asm.Ref{Name: cn})
@@ -348,7 +348,19 @@ func runC07(c *Ctx) {
 					equ[q.Name] = asm.Tokens(q.E)
 				}
 			}
-			env := asm.Env{EQU: equ}
+			env := asm.Env{EQU: equ, Atom: func(name string) (*big.Int, bool) {
+				switch name {
+				case "CORESIZE":
+					return big.NewInt(int64(cfg.CoreSize)), true
+				case "MAXLENGTH":
+					return big.NewInt(int64(cfg.Length)), true
+				case "MAXPROCESSES":
+					return big.NewInt(int64(cfg.Processes)), true
+				case "MINDISTANCE":
+					return big.NewInt(int64(cfg.Distance)), true
+				}
+				return nil, false
+			}}
 			if v, e := env.Eval(asm.Tokens(e1)); e == nil && (!v.IsInt64() || v.Int64() > 200) {
 				c.Inc("for_count_too_large_skipped")
 				c.res.Evaluations--
